@@ -47,6 +47,29 @@ Theorem kf_shadow_empty_when_no_shadowing :
 Proof. exact ConfineSpec.kf_shadow_free_when_gathered. Qed.
 Print Assumptions kf_shadow_empty_when_no_shadowing.
 
+(* the inserted `if TYPE_CHECKING:` tests a bound name: `from typing import TYPE_CHECKING` (or `from typing import *`)
+   is in the leading import block of the result, so the name is bound before every module-level block -
+   wherever else (function body, try/except shim) the source may import it *)
+Theorem tc_name_bound :
+  forall stub src applied out,
+    confine stub src applied = Some out -> tc_ready out = true /\ tc_before out = true.
+Proof. exact ConfineSpec.tc_name_bound. Qed.
+Print Assumptions tc_name_bound.
+
+(* source imports TYPE_CHECKING only inside a function; the model still imports it at the top *)
+Example ex_tc_name_nonvacuous :
+  let src := [SComp "f" []; SComp "h" [(CLocal, IFrom "typing" [("TYPE_CHECKING"%string, None)])]] in
+  let applied := SImp (IFrom "__future__" [("annotations"%string, None)]) :: src in
+  let stub := [SImp (IFrom "shapes" [("Circle"%string, None)]); SComp "s" []] in
+  confine stub src applied =
+    Some [SImp (IFrom "__future__" [("annotations"%string, None)]);
+          SImp (IFrom "typing" [("TYPE_CHECKING"%string, None)]);
+          SIfTC [IFrom "shapes" [("Circle"%string, None)]];
+          SComp "f" []; SComp "h" [(CLocal, IFrom "typing" [("TYPE_CHECKING"%string, None)])]]
+  /\ tc_before (SImp (IFrom "__future__" [("annotations"%string, None)])
+                :: SIfTC [IFrom "shapes" [("Circle"%string, None)]] :: src) = false.
+Proof. vm_compute. split; reflexivity. Qed.
+
 (* ---- non-vacuity: design-phase witness (a), as reified from the real (patched) run:
    source `import shapes` + def; stub `from shapes import Circle` + def *)
 Definition ex_stub : module := [SImp (IFrom "shapes" [("Circle"%string, None)]); SComp "s" []].
